@@ -107,6 +107,59 @@ def run_unit(A, unit, rep, tier):
         rep.ok("C19.b", "C19.b no function other than get_type / __init__ writes a resolver's memo, table or blocklist")
     for g, n in writers:
         rep.fail("C19.b", norm_key("C19.b", g.qualname, n.attr), f"{g.qualname} writes the resolver state `{n.attr}` outside get_type", [f"{g.module.path}:{n.lineno}"], g.qualname)
+    # get_type itself may only write the memo
+    other_stores = []
+    for n in ast.walk(src):
+        tg = n.targets if isinstance(n, ast.Assign) else ([n.target] if isinstance(n, (ast.AugAssign, ast.AnnAssign)) else [])
+        for t in tg:
+            base = t
+            while isinstance(base, ast.Subscript):
+                base = base.value
+            if isinstance(base, ast.Attribute) and isinstance(base.value, ast.Name) and base.value.id == "self" and base.attr != "type_map":
+                other_stores.append((n, base.attr))
+    if not other_stores:
+        rep.ok("C19.b", "C19.b get_type keeps no state besides the per-type memo")
+    for n, attr in other_stores:
+        rep.fail("C19.b", norm_key("C19.b", f.qualname, "state", attr), f"get_type keeps additional mutable state `self.{attr}` besides the per-type memo: classification can depend on what was processed before (and on other threads)", [f"{f.module.path}:{n.lineno}"], f.qualname)
+    # every other access to the memo (get / in / setdefault ...) must use the same key
+    for n in ast.walk(src):
+        if isinstance(n, ast.Call) and isinstance(n.func, ast.Attribute) and isinstance(n.func.value, ast.Attribute) and n.func.value.attr == "type_map":
+            k = n.args[0] if n.args else None
+            if not (isinstance(k, ast.Name) and k.id in key_names):
+                rep.fail("C19.b", norm_key("C19.b", f.qualname, "key", n.func.attr), f"get_type consults the memo with a key other than type(obj) (`{ast.unparse(n)[:70]}`): the classification of a type then depends on which other types were seen before", [f"{f.module.path}:{n.lineno}"], f.qualname)
+        if isinstance(n, ast.Compare) and any(isinstance(c, ast.Attribute) and c.attr == "type_map" for c in n.comparators):
+            if not (isinstance(n.left, ast.Name) and n.left.id in key_names):
+                rep.fail("C19.b", norm_key("C19.b", f.qualname, "key", "in"), "get_type tests membership in the memo with a key other than type(obj)", [f"{f.module.path}:{n.lineno}"], f.qualname)
+    # (c2') the conversion routine does not reorder / modify the registry (seen through local aliases)
+    seen_fb = {}
+    for cls in A.concrete():
+        owner, v = m.lookup(cls, "_from_base")
+        seen_fb.setdefault(v.func, cls)
+    from ..graph import Val as _Val
+    for func, cls in seen_fb.items():
+        b_, g_ = A.graph(cls, "_from_base", "root", "none", recv=_Val("cls", (cls,)))
+        for n in g_.nodes:
+            if n.id in g_.live and n.kind in ("sub_store", "local_mut", "cs_write"):
+                base = n["base"] if n.kind != "cs_write" else n["target"]
+                reg = (n.kind == "cs_write" and n["name"] == "registry") or (base is not None and base.kind == "tuple" and base.args and all(x.kind == "classref" for x in base.args))
+                if reg:
+                    rep.fail("C19.c", norm_key("C19.c", func.qualname, "registry"), f"{func.qualname} modifies the class registry at run time (`{n.stmt}`): which class converts a value then depends on earlier conversions", [n.where() + ": " + n.stmt], func.qualname)
+    # (c2) class-level tables (the registry) are only written at class definition time
+    hooks = getattr(m, "hook_funcs", set())
+    for g in m.functions:
+        if g.module.name == ABC_MOD or g in hooks:
+            continue
+        for n in ast.walk(g.node):
+            hit = None
+            if isinstance(n, ast.Call) and isinstance(n.func, ast.Attribute) and n.func.attr in ("insert", "remove", "append", "pop", "sort", "reverse", "clear", "extend", "__setitem__"):
+                if "registry" in ast.unparse(n.func.value):
+                    hit = n
+            tg = n.targets if isinstance(n, ast.Assign) else ([n.target] if isinstance(n, ast.AugAssign) else (n.targets if isinstance(n, ast.Delete) else []))
+            for t in tg:
+                if isinstance(t, (ast.Subscript, ast.Attribute, ast.Tuple)) and "registry" in ast.unparse(t):
+                    hit = n
+            if hit is not None:
+                rep.fail("C19.c", norm_key("C19.c", g.qualname, "registry"), f"{g.qualname} modifies the class registry at run time (`{ast.unparse(hit)[:80]}`): which class converts a value then depends on earlier conversions", [f"{g.module.path}:{hit.lineno}"], g.qualname)
     # (c) module-level mutable state written by functions
     hits = scan_global_writes(m, [mod for nm, mod in m.modules.items() if nm != ABC_MOD])
     from ..model import Module
